@@ -3,7 +3,11 @@
  * external threads (and the primary ULT for private pools).  Every call/return
  * is stamped; the recorded history is checked by brute force against the
  * sequential specification (FIFO queue; RANDWS: deque whose ends are selected
- * by the context flags). */
+ * by the context flags).
+ * Calls covered: ABT_pool_push_thread[_ex], push_threads[_ex], pop_thread[_ex],
+ * pop_threads[_ex], pop_wait_thread[_ex], the ABT_unit based ABT_pool_push,
+ * ABT_pool_pop, ABT_pool_pop_wait, ABT_pool_pop_timedwait, ABT_pool_remove,
+ * ABT_pool_get_size, ABT_pool_is_empty. */
 #include "common.h"
 
 enum { O_END = 0, O_PUSH, O_PUSH_HEADCTX, O_PUSH2, O_POP, O_POP_TAILCTX, O_POP2,
@@ -526,13 +530,86 @@ static int lin_search(unsigned done, dq d)
 
 static void describe_history(char *buf, size_t n)
 {
-    static const char *on[] = { "end", "push", "pushH", "push2", "pop", "popT",
-                                "pop2", "popwait", "poptimed", "remove", "size" };
+    static const char *on[O_NOPS] = { "end", "push", "pushH", "push2", "pop",
+                                      "popT", "pop2", "popwait", "poptimed",
+                                      "remove", "size", "pushU", "popU",
+                                      "popwaitU", "pushX", "push2X", "popX",
+                                      "pop2X", "popwaitX" };
     size_t o = 0;
-    for (int i = 0; i < nH && o < n; i++)
-        o += snprintf(buf + o, n - o, "[a%d %s(%d,%d)->%d,%d,n=%d @%ld-%ld] ",
-                      H[i].actor, on[H[i].op], H[i].a, H[i].b, H[i].r1, H[i].r2,
-                      H[i].n, H[i].call, H[i].ret);
+    for (int i = 0; i < nH && o < n; i++) {
+        o += snprintf(buf + o, n - o, "[a%d %s", H[i].actor, on[H[i].op]);
+        if (H[i].op >= O_PUSHX && o < n)
+            o += snprintf(buf + o, n - o, "<%s>", CTXN[H[i].x]);
+        if (o < n)
+            o += snprintf(buf + o, n - o, "(%d,%d)->%d,%d,n=%d @%ld-%ld] ",
+                          H[i].a, H[i].b, H[i].r1, H[i].r2, H[i].n, H[i].call,
+                          H[i].ret);
+    }
+}
+
+static int is_push1(int op)
+{
+    return op == O_PUSH || op == O_PUSH_HEADCTX || op == O_PUSHU || op == O_PUSHX;
+}
+static int is_push2(int op) { return op == O_PUSH2 || op == O_PUSH2X; }
+static int is_pop2(int op) { return op == O_POP2 || op == O_POP2X; }
+static int is_pop(int op)
+{
+    return (op >= O_POP && op <= O_POPTIMED) || op == O_POPU ||
+           op == O_POPWAITU || op == O_POPX || op == O_POP2X || op == O_POPWAITX;
+}
+
+/* sequential enumeration: the c-th operation of alphabet alpha, given which
+ * units are outside (freeu) / inside (inu) the pool; O_END = not applicable.
+ * For the *_ex alphabet the context rotates (rot) through the list of flags
+ * that must select the head / must not / the tail / must not. */
+static const int SEQ_NOPS[3] = { 7, 10, 7 };
+static opspec seq_pick(int alpha, int c, int rot, const int *freeu, int nf,
+                       const int *inu, int ni)
+{
+    static const int HL[5] = { X_CREATE, X_CREATE_TO, X_REVIVE, X_REVIVE_TO,
+                               X_SEC_CREATE };
+    static const int NHL[5] = { X_OTHER, X_SEC, X_PRIM_YIELD, X_RESUME_HI,
+                                X_SEC_YLOOP_LO };
+    static const int TL[3] = { X_SEC, X_SEC_CREATE, X_SEC_YLOOP_LO };
+    static const int NTL[5] = { X_OTHER, X_CREATE, X_PRIM_YIELD, X_REVIVE_TO,
+                                X_RESUME_HI };
+    opspec o = { O_END, 0, 0, 0 };
+    if (alpha == A_BASIC) {
+        switch (c) {
+            case 0: if (nf >= 1) { o.op = O_PUSH; o.a = freeu[0]; } break;
+            case 1: if (nf >= 1) { o.op = O_PUSH_HEADCTX; o.a = freeu[nf - 1]; } break;
+            case 2: if (nf >= 2) { o.op = O_PUSH2; o.a = freeu[0]; o.b = freeu[1]; } break;
+            case 3: o.op = O_POP; break;
+            case 4: o.op = O_POP_TAILCTX; break;
+            case 5: o.op = O_POP2; break;
+            case 6: if (ni >= 1) { o.op = O_REMOVE; o.a = inu[ni / 2]; } break;
+        }
+    } else if (alpha == A_EX) {
+        switch (c) {
+            case 0: if (nf >= 1) { o.op = O_PUSHX; o.a = freeu[0]; o.x = HL[rot % 5]; } break;
+            case 1: if (nf >= 1) { o.op = O_PUSHX; o.a = freeu[nf - 1]; o.x = NHL[rot % 5]; } break;
+            case 2: if (nf >= 2) { o.op = O_PUSH2X; o.a = freeu[0]; o.b = freeu[1]; o.x = HL[rot % 5]; } break;
+            case 3: if (nf >= 2) { o.op = O_PUSH2X; o.a = freeu[nf - 1]; o.b = freeu[0]; o.x = NHL[rot % 5]; } break;
+            case 4: o.op = O_POPX; o.x = TL[rot % 3]; break;
+            case 5: o.op = O_POPX; o.x = NTL[rot % 5]; break;
+            case 6: o.op = O_POP2X; o.x = TL[rot % 3]; break;
+            case 7: o.op = O_POP2X; o.x = NTL[rot % 5]; break;
+            case 8: o.op = O_POPWAITX; o.x = TL[rot % 3]; break;
+            case 9: o.op = O_POPWAITX; o.x = NTL[rot % 5]; break;
+        }
+    } else {
+        switch (c) {
+            case 0: if (nf >= 1) { o.op = O_PUSHU; o.a = freeu[0]; } break;
+            case 1: if (nf >= 2) { o.op = O_PUSH2; o.a = freeu[nf - 1]; o.b = freeu[0]; } break;
+            case 2: o.op = O_POPU; break;
+            case 3: o.op = O_POPWAITU; break;
+            case 4: o.op = O_POPTIMED; break;
+            case 5: o.op = O_POP2; break;
+            case 6: if (ni >= 1) { o.op = O_REMOVE; o.a = inu[ni / 2]; } break;
+        }
+    }
+    return o;
 }
 
 static void actor_fn(void *arg)
@@ -562,7 +639,7 @@ static void scenario(int cfg)
     t_deadline = abtmc_now() + WAIT_SECS;
     double cand[2] = { abtmc_now() + WAIT_SECS, abtmc_now() + 2 * WAIT_SECS };
     abtmc_clock_candidates(cand, 2);
-    opspec init = { O_PUSH, 0, 0 };
+    opspec init = { O_PUSH, 0, 0, 0 };
     for (int i = 0; i < C->ninit; i++) {
         init.a = i;
         do_op(9, &init);
@@ -573,9 +650,9 @@ static void scenario(int cfg)
         /* private pool: every operation sequence of the given depth, issued by
          * the primary ULT; units are pushed only while outside the pool */
         int in_pool[NUNITS] = { 0 };
+        int rot = 0;
         for (int d = 0; d < C->seq_depth; d++) {
-            int c = abtmc_choose(7, ABTMC_B_FREE);
-            opspec o = { O_END, 0, 0 };
+            int c = abtmc_choose(SEQ_NOPS[C->seq_alpha], ABTMC_B_FREE);
             int freeu[NUNITS], nf = 0, inu[NUNITS], ni = 0;
             for (int i = 0; i < NUNITS; i++) {
                 if (in_pool[i])
@@ -583,22 +660,15 @@ static void scenario(int cfg)
                 else
                     freeu[nf++] = i;
             }
-            switch (c) {
-                case 0: if (nf >= 1) { o.op = O_PUSH; o.a = freeu[0]; } break;
-                case 1: if (nf >= 1) { o.op = O_PUSH_HEADCTX; o.a = freeu[nf - 1]; } break;
-                case 2: if (nf >= 2) { o.op = O_PUSH2; o.a = freeu[0]; o.b = freeu[1]; } break;
-                case 3: o.op = O_POP; break;
-                case 4: o.op = O_POP_TAILCTX; break;
-                case 5: o.op = O_POP2; break;
-                case 6: if (ni >= 1) { o.op = O_REMOVE; o.a = inu[ni / 2]; } break;
-            }
+            rot += c + 1; /* a different flag of the list at (almost) every step */
+            opspec o = seq_pick(C->seq_alpha, c, rot + d, freeu, nf, inu, ni);
             if (o.op == O_END)
                 continue;
             do_op(0, &o);
             hrec *r = &H[nH - 1];
-            if (o.op == O_PUSH || o.op == O_PUSH_HEADCTX)
+            if (is_push1(o.op))
                 in_pool[o.a] = 1;
-            if (o.op == O_PUSH2)
+            if (is_push2(o.op))
                 in_pool[o.a] = in_pool[o.b] = 1;
             if (r->r1 >= 0)
                 in_pool[r->r1] = 0;
@@ -633,7 +703,7 @@ static void scenario(int cfg)
     OK(ABT_pool_get_size(Q, &sz));
     OK(ABT_pool_is_empty(Q, &emp));
     int drained = 0;
-    opspec pop = { O_POP, 0, 0 };
+    opspec pop = { O_POP, 0, 0, 0 };
     for (;;) {
         do_op(9, &pop);
         if (H[nH - 1].r1 < 0)
@@ -649,9 +719,9 @@ static void scenario(int cfg)
     /* each pushed unit returned exactly once */
     int pushed[NUNITS] = { 0 }, got[NUNITS] = { 0 };
     for (int i = 0; i < nH; i++) {
-        if (H[i].op == O_PUSH || H[i].op == O_PUSH_HEADCTX)
+        if (is_push1(H[i].op))
             pushed[H[i].a]++;
-        if (H[i].op == O_PUSH2) {
+        if (is_push2(H[i].op)) {
             pushed[H[i].a]++;
             pushed[H[i].b]++;
         }
@@ -681,9 +751,9 @@ static void scenario(int cfg)
         char buf[128];
         int o = 0;
         for (int i = 0; i < nH && o < 100; i++)
-            if (H[i].actor != 9 && H[i].op >= O_POP && H[i].op <= O_POPTIMED)
+            if (H[i].actor != 9 && is_pop(H[i].op))
                 o += snprintf(buf + o, sizeof(buf) - o, "a%d:%d%s ", H[i].actor,
-                              H[i].r1, H[i].op == O_POP2
+                              H[i].r1, is_pop2(H[i].op)
                                            ? (H[i].r2 >= 0 ? "+" : "")
                                            : "");
         buf[o] = 0;
